@@ -24,7 +24,7 @@ MANIFEST = {
     "note": "C16_engine_is_ref / C16_engine_is_ref_table: the whole pipeline (15 stages in source order, then user tags / FOR / write) on every "
             "template of in_grammar16 with any number of blocks of any kinds equals ref16. PARTIAL: the nested per-state/per-event/"
             "per-transition blocks (alternative text) are not in the Coq template syntax; they are modelled, tied by differential execution and "
-            "observed against the Python reference. signature/member/documentation/attribute tags are not modelled. Values substituted must not contain '<' '>' (checked per case).",
+            "observed against the Python reference. The per-(template, table) conditions wf_elements16 follow from syntactic name conditions (C07_names_wf16 in Props/C07.v: non-empty alphanumeric element names, every block body line with a visible literal character). signature/member/documentation/attribute tags are not modelled. Values substituted must not contain '<' '>' (checked per case).",
 }
 RULE = ("probe templates: 1-5 sections out of {plain text with blank runs and TABs, PER_STATE/EVENT/ACTION/GUARD/STRUCT/MSG/PROTOMSG block with "
         "1-3 body lines using the name tag of the block in its three case variants plus NUM/ALPH, PER_ACTION_SIGNATURE block, nested "
